@@ -181,10 +181,17 @@ fn extract_class(
         parent_names
     };
 
+    // Positions may tie (a function is moved two further, init is put after the last
+    // variable): break ties by kind so the order never depends on HashMap iteration order.
+    let tie_rank = |name: &Core, stmt: &Core| match (name, stmt) {
+        (Core::Id { lit }, _) if lit == function::python::INIT => 1,
+        (_, Core::FunDef { .. } | Core::FunDefOp { .. }) => 2,
+        _ => 0,
+    };
     let body_stmts: Vec<Core> = body_name_stmts
-        .values()
-        .sorted_by_key(|(pos, _)| *pos)
-        .map(|(_, stmt)| stmt.clone())
+        .iter()
+        .sorted_by_key(|(name, (pos, stmt))| (*pos, tie_rank(name, stmt)))
+        .map(|(_, (_, stmt))| stmt.clone())
         .collect();
 
     let statements = if body_stmts.is_empty() {
